@@ -39,28 +39,49 @@ type cliCase struct {
 
 // statement texts for one script; frag[i] = the two halves of statement i
 func concretizeScript(c *cliCase, rng interface{ Intn(int) int }) (stmts []string, halves [][2]string) {
-	var lets []int
+	// accepted lets so far: a later let may use the name of an earlier one again (redefinition) and may refer to
+	// earlier names in its value, so that the order of the prelude matters
+	var letNames []string
+	inScope := func() []string {
+		seen := map[string]bool{}
+		var out []string
+		for _, n := range letNames {
+			if !seen[n] {
+				seen[n] = true
+				out = append(out, n)
+			}
+		}
+		return out
+	}
 	for i, k := range c.Script {
 		n := i + 1
 		var s string
 		cut := -1
 		switch k {
 		case "LetOk":
-			switch rng.Intn(3) {
-			case 0:
-				s = fmt.Sprintf("let v%d = %d", n, 100+n)
-			case 1:
-				s = fmt.Sprintf("let v%d = 'x;%d'", n, n) // a semicolon inside a string literal
-			default:
-				s = fmt.Sprintf("let v%d = -%d", n, n)
+			name := fmt.Sprintf("v%d", n)
+			if len(letNames) > 0 && rng.Intn(3) == 0 {
+				name = letNames[rng.Intn(len(letNames))] // redefinition
 			}
-			lets = append(lets, n)
+			switch v := rng.Intn(5); {
+			case v == 0:
+				s = fmt.Sprintf("let %s = %d", name, 100+n)
+			case v == 1:
+				s = fmt.Sprintf("let %s = 'x;%d'", name, n) // a semicolon inside a string literal
+			case v == 2:
+				s = fmt.Sprintf("let %s = -%d", name, n)
+			case len(letNames) > 0:
+				s = fmt.Sprintf("let %s = %s + %d", name, letNames[rng.Intn(len(letNames))], n) // refers to an earlier let (maybe itself)
+			default:
+				s = fmt.Sprintf("let %s = %d", name, 200+n)
+			}
+			letNames = append(letNames, name)
 		case "LetBad":
 			s = []string{fmt.Sprintf("let w%d = nosuchname", n), "let = 5", fmt.Sprintf("let w%d 7", n), fmt.Sprintf("let w%d = (1", n)}[rng.Intn(4)]
 		case "QOk":
 			conds := []string{}
-			for _, j := range lets {
-				conds = append(conds, fmt.Sprintf("c%d == v%d", j, j))
+			for _, name := range inScope() {
+				conds = append(conds, fmt.Sprintf("c%s == %s", name, name))
 			}
 			if rng.Intn(2) == 0 {
 				conds = append(conds, "s != \"p;q\"") // a semicolon inside a string literal
